@@ -1318,6 +1318,7 @@ func (s *Stage) buildCache(from time.Time) {
 	s.logInfo("Building cache from logs:", from)
 	var first time.Time
 	now := time.Now()
+	loaded := make(map[string]bool)
 	s.logger.Parse(func(name, renamed, hash string, size int64, t time.Time) bool {
 		if t.After(cacheTime) {
 			return true
@@ -1326,10 +1327,13 @@ func (s *Stage) buildCache(from time.Time) {
 			first = t
 		}
 		path := filepath.Join(s.rootDir, name)
-		if _, ok := s.cache[path]; ok {
-			// Skip it if the file is already in the cache
+		if _, ok := s.cache[path]; ok && !loaded[path] {
+			// Skip it if the file was in the cache before this build (what was
+			// there describes something more recent); of the records read
+			// now the latest one of a name counts
 			return false
 		}
+		loaded[path] = true
 		file := &finalFile{
 			path:    path,
 			name:    name,
